@@ -401,6 +401,89 @@ def cost_homogeneous(prog: Program) -> RuleResult:
     res.floor(40)
     return res
 
+
+# ---------------------------------------------------------------------------
+# monotonicity (C09: raising one unit cost never lowers the minimum)
+
+
+def _negative_unit_terms(poly: Poly, dmin: int) -> List[str]:
+    """Unit costs whose total coefficient can be negative given D >= dmin and run counts >= 0."""
+    bad = []
+    units = sorted({k for k in poly.atom_keys() if k.startswith("c[")})
+    for unit in units:
+        q = poly.coefficient_of(unit)
+        low = Fraction(0)
+        ok = True
+        for mono, coef in q.terms.items():
+            if mono == ():
+                low += coef
+                continue
+            if len(mono) == 1 and mono[0][1] == 1:
+                atom = mono[0][0]
+                head = atom.split(".")[0]
+                if head in ("D", "LT", "LF"):
+                    if coef < 0:
+                        ok = False
+                    elif head == "D":
+                        low += coef * dmin
+                    continue
+            ok = ok and coef >= 0  # other count-like atoms: only non-negative coefficients are accepted
+        if not ok or low < 0:
+            bad.append(f"{unit} * ({q})")
+    return bad
+
+
+def cost_monotone(prog: Program) -> RuleResult:
+    res = RuleResult(
+        "COST-MONOTONE",
+        "in every value the optimisers and the evaluator compute, each unit cost is multiplied by a quantity "
+        "that cannot be negative (distance - 1 only where the child is strictly below the node, counts of runs, "
+        "constants >= 0): then every candidate total is non-decreasing in every unit cost, and so is the minimum",
+    )
+    sig = cm.evaluator_signature(prog)
+    emod = prog.module(cm.MODEL)
+    for part, store in (("rec", sig.rec), ("ordered", sig.ordered), ("unordered", sig.unordered)):
+        for kind in cm.KINDS:
+            for alt, pol in store[kind].items():
+                construct = f"{cm.MODEL}:{part}/{kind}" + (f"/{alt}" if alt else "") + "/monotone"
+                bad = _negative_unit_terms(pol, 1 if kind == "SPECIATION" else 0)
+                site = sig.sites.get(f"{'rec' if part == 'rec' else '_' + part + '_labeling_cost'}.{kind}")
+                if bad:
+                    res.fail(construct, f"the evaluator's charge can decrease when a unit cost is raised: {bad}", emod, site)
+                else:
+                    res.ok(construct, str(pol))
+    for rec in cm.find_recurrences(prog):
+        for key, cls in rec.classes.items():
+            for idx, site in enumerate(cls.sites):
+                construct = f"{rec.modname}:{rec.fn.name}/class[{cls.label}]#{idx}/monotone"
+                if site.poly is None:
+                    raise AnalysisError(f"{construct}: no polynomial")
+                domain, _desc = _site_domain(rec, site)
+                dmin = 1 if domain in ("below-c0", "below-c1") else 0
+                bad = _negative_unit_terms(site.poly, dmin)
+                if bad:
+                    res.fail(
+                        construct,
+                        f"the candidate value [{site.poly}] offered to `{cls.label}` (species range: {domain}, so "
+                        f"D >= {dmin}) multiplies a unit cost by a quantity that can be negative: {bad} - raising "
+                        "that cost lowers the value",
+                        rec.mod,
+                        site.node,
+                    )
+                else:
+                    res.ok(construct, f"{site.poly}  [D >= {dmin}]")
+        for idx, comb in enumerate(rec.combines):
+            hook = _CombHook(rec, comb)
+            cpoly = Normaliser(hook).poly(comb.comb_value)
+            construct = f"{rec.modname}:{rec.fn.name}/combine#{idx}[{comb.comb_label}]/monotone"
+            bad = _negative_unit_terms(cpoly, 0)
+            if bad:
+                res.fail(construct, f"the combinator value [{cpoly}] can decrease when a unit cost is raised: {bad}", rec.mod, comb.call)
+            else:
+                res.ok(construct, str(cpoly))
+    res.floor(40)
+    return res
+
 # ---------------------------------------------------------------------------
 # domains
 
@@ -1111,6 +1194,30 @@ def base_ext_share(prog: Program) -> RuleResult:
                 res.fail(construct, f"does not call the shared engine `{engine}` exactly once", mod, fn)
                 continue
             call = calls[0]
+            # every path of the variant returns that engine run (no shortcut around the search)
+            rets = [n for n in walk_no_nested(fn) if isinstance(n, ast.Return)]
+            stray = []
+            for r in rets:
+                val = r.value
+                if isinstance(val, ast.Name):
+                    got = reaching(fn, val.id, r)
+                    val = got if got is not None and not isinstance(got, Opaque) else val
+                if val is not call:
+                    stray.append(r)
+            pconstruct = f"{modname}:{fname}/every-path-runs-engine"
+            if stray:
+                gs = guards(fn, stray[0])
+                cond = " and ".join(("" if p else "not ") + short(t, 70) for t, p in gs) or "unconditionally"
+                res.fail(
+                    pconstruct,
+                    f"`{short(stray[0], 70)}` (taken when {cond}) returns without running `{engine}` over "
+                    f"{'every species' if variant == 'extended' else 'the LCA species'}: on that path the {variant} "
+                    "variant does not search its own space",
+                    mod,
+                    stray[0],
+                )
+            else:
+                res.ok(pconstruct, f"{len(rets)} return(s), all of the engine run")
             efn = prog.func(modname, engine)
             eparams = func_params(efn)
             first = kwarg(call, eparams[0], 0)
@@ -1178,7 +1285,7 @@ def base_ext_share(prog: Program) -> RuleResult:
                         mod,
                         allowed,
                     )
-    res.floor(4)
+    res.floor(8)
     return res
 
 
@@ -1187,6 +1294,7 @@ RULES = {
     "PRUNE": prune,
     "EVENT-SIG": event_sig,
     "COST-HOMOGENEOUS": cost_homogeneous,
+    "COST-MONOTONE": cost_monotone,
     "CLASS-DOMAIN": class_domain,
     "MIRROR": mirror,
     "COMBINE-ORIENT": combine_orient,
